@@ -481,6 +481,9 @@ REC: Recorder | None = None
 _PATCHED = {}
 
 
+_MISSING = object()
+
+
 class _snapshotting:
     """wraps MockApi.call_api's context manager: right after the mock has materialised the
     object (before anything else can touch it) a deep JSON copy is recorded — this is "the
@@ -491,7 +494,10 @@ class _snapshotting:
 
     async def __aenter__(self):
         resp = await self.inner.__aenter__()
-        self.cur["mat"] = canon(self.api.materialized)
+        # the object the mock stored for this call (the raw attribute when there is one: the public
+        # accessor is what assertions read and may be a view of it)
+        raw = self.api.__dict__.get("_materialized", _MISSING)
+        self.cur["mat"] = canon(self.api.materialized if raw is _MISSING else raw)
         return resp
 
     async def __aexit__(self, *exc):
@@ -860,6 +866,15 @@ def chain_oracle(test, ob):
                 tr[k]["mat"] if api._api_called else tr[k]["api_resource"])
         if skey(got[0]) != skey(want[0]):
             return ("chain: next case does not start from the inputs the previous non-variant case ran with", k, got, want)
+        # what the Function wrote, independently of the mock's book-keeping: every top-level field of the
+        # last body it sent (create or patch) is what the next case sees, metadata.annotations included
+        sent = [c for c in tr[k]["calls"]]
+        if sent and sent[-1] is not None and isinstance(sent[-1], dict):
+            seen = got[1] if isinstance(got[1], dict) else {}
+            for key, val in sent[-1].items():
+                if key not in seen or skey(seen[key]) != skey(canon(val)):
+                    return ("chain: next case does not see what the previous non-variant case sent to the API",
+                            k, {key: seen.get(key)}, {key: val})
         if skey(got[1]) != skey(want[1]):
             return ("chain: next case does not start from the resource the previous non-variant case produced", k, got, want)
     return None
@@ -1183,7 +1198,8 @@ async def check_test(ctx: Ctx, env: Env, fn, test, rng, cases_out, terms_out, do
                 i += 1
         ctx.fail(Failure(signature=sig, what=f"{sig} (after case index {k})",
                          case={"test": dict(test, cases=[c for c in test["cases"] if c["label"] in set(keep)])},
-                         observed=list(got), expected=list(want)))
+                         observed=got if isinstance(got, dict) else list(got),
+                         expected=want if isinstance(want, dict) else list(want)))
     term, conflicts = to_coq(test, ob)
     cases_out.append({"test": test, "how": "base"})
     terms_out.append(term)
